@@ -32,6 +32,7 @@ import (
 	"Havoc/pkg/packager"
 	"Havoc/pkg/profile"
 	"Havoc/pkg/utils"
+	"Havoc/pkg/verifhook"
 )
 
 func NewTeamserver(DatabasePath string) *Teamserver {
@@ -822,6 +823,7 @@ func (t *Teamserver) EventRemove(EventID int) []packager.Package {
 
 func (t *Teamserver) SendAllPackagesToNewClient(ClientID string) {
 	for _, Package := range t.EventsList {
+		verifhook.Point("ops.replay.frame")
 		err := t.SendEvent(ClientID, Package)
 		if err != nil {
 			logger.Error("error while sending info to client("+ClientID+"): ", err)
